@@ -496,10 +496,10 @@ def innerOutput (style : Style α) (parentSize : Size (Option α)) (ic : InnerCt
   { size := finalOuterSize, contentSize, firstBaselines := ⟨none, none⟩,
     topMargin :=
       if ic.ownMarginsCollapseWithChildren.start then firstChildTopMarginSet
-      else MarginSet.fromMargin (style.margin.top.resolveOrZero parentSize.width),
+      else MarginSet.zero,
     bottomMargin :=
       if ic.ownMarginsCollapseWithChildren.end then lastChildBottomMarginSet
-      else MarginSet.fromMargin (style.margin.bottom.resolveOrZero parentSize.width),
+      else MarginSet.zero,
     marginsCanCollapseThrough := canBeCollapsedThrough }
 
 /-- the arguments `compute_inner` passes to `perform_final_layout_on_in_flow_children` once the container's outer width is
